@@ -160,6 +160,10 @@ class DirectoryResourcePopulator:
 
                 # Prepare some paths for map insertion
                 relpath = pt.relpath(full_file_path, root)
+                # The root itself is the map being populated, not a submap
+                if pt.normpath(relpath) == pt.curdir:
+                    continue
+
                 resource_string = pt.normpath(relpath).replace(
                     pt.sep, ResourceMap.split_char)
                 # Optionally trim extensions from files
@@ -174,12 +178,20 @@ class DirectoryResourcePopulator:
                     new_resource = rule.instantiate(full_file_path)
 
                     # Add scope level if a conflicting handle is encountered?
+                    handle = resource_map.get(resource_string)
                     if nest_on_conflict:
-                        handle = resource_map.get(resource_string)
                         if (handle is not None
                             and handle is handle.parent.handles.maps[0].get(
                                 handle.key)):
                             handle.parent.handles.maps.insert(0, {})
+                    elif isinstance(handle, Handle):
+                        # Replace it, wherever it is: it may be visible
+                        # through a deeper layer and would otherwise stay
+                        # nested beneath the new one
+                        for layer in handle.parent.handles.maps:
+                            if layer.get(handle.key) is handle:
+                                del layer[handle.key]
+                                break
 
                 if new_resource is not None:
                     resource_map[resource_string] = new_resource
